@@ -123,6 +123,9 @@ def run(ctx):
             stats["by_surface"][e["surface"]] = stats["by_surface"].get(e["surface"], 0) + 1
         if code & 2:
             continue
+        if code & 4:          # equal to 1e-12 but not bit for bit: the transformation is the documented one; only the exact tie is lost
+            ctx.broken.append("%s agrees with the documented calls to 1e-12 but not bit for bit" % (label(e) if kind == "surface" else "operate(%s)" % e["op"]))
+            continue
         if kind == "operate":
             base = BASE_QUBITS.get(e["op"], 1)
             arity_err = r["r"] == "err" and "InvalidNumberOfQubits(%d)" % base in r.get("e", "") and len(e["ts"]) + len(e["cs"]) != base
